@@ -7,6 +7,7 @@ import (
 	"net"
 	"net/http"
 	"net/http/httputil"
+	"strings"
 	"time"
 
 	"go.uber.org/zap"
@@ -100,6 +101,10 @@ func (p *HTTPProxy) ServeHTTPWithUpstream(
 	}
 
 	r.Header.Set("x-piko-forward", "true")
+	// The reverse proxy drops every header named in 'Connection' as a
+	// hop-by-hop header, which must never include the forward marker
+	// (otherwise the receiving node would forward the request again).
+	removeConnectionOption(r.Header, "x-piko-forward")
 
 	r = r.WithContext(context.WithValue(r.Context(), endpointContextKey, endpointID))
 
@@ -119,6 +124,29 @@ func (p *HTTPProxy) dialUpstream(ctx context.Context, _, _ string) (net.Conn, er
 		p.upstreams.RemoveConn(u)
 	}
 	return c, err
+}
+
+// removeConnectionOption removes the option with the given name from the
+// 'Connection' header.
+func removeConnectionOption(h http.Header, name string) {
+	values := h.Values("Connection")
+	if len(values) == 0 {
+		return
+	}
+	var options []string
+	for _, v := range values {
+		for _, option := range strings.Split(v, ",") {
+			option = strings.TrimSpace(option)
+			if option != "" && !strings.EqualFold(option, name) {
+				options = append(options, option)
+			}
+		}
+	}
+	if len(options) == 0 {
+		h.Del("Connection")
+		return
+	}
+	h["Connection"] = []string{strings.Join(options, ", ")}
 }
 
 func (p *HTTPProxy) errorHandler(w http.ResponseWriter, _ *http.Request, err error) {
